@@ -1,6 +1,6 @@
 (* C05 - a process crash at any point never loses or tears an object.  Statements only. *)
 From Coq Require Import List ZArith NArith.
-From DOS Require Import Base Store StoreProofs StoreLemmas Programs ProgramsProofs PackProofs MaintProofs RepackProofs AddPackProofs.
+From DOS Require Import Base Store StoreProofs StoreLemmas Programs ProgramsProofs PackProofs MaintProofs RepackProofs AddPackProofs ImportProofs.
 Import ListNotations.
 
 Section C05.
@@ -92,6 +92,12 @@ Proof. exact (stored_sound H inflate). Qed.
 Theorem C05_any_spill : forall w id f x s,
   Inv H inflate w -> get_pack w id = Some f -> Inv H inflate (append_pack w id f x s).
 Proof. exact (Inv_append_pack H inflate). Qed.
+(* import_objects, the transfer (any number of do_commit=False batches over any packs, one final COMMIT), all three modes, with or without fsync *)
+Theorem C05_import_every_crash_point : forall w l bs nh twice fs m,
+  Inv H inflate w -> pending l = [] -> Forall (fun b => Forall (aobj_ok H inflate) (snd b)) bs ->
+  let w' := crash (run_events (w, l) (firstn m (p_import w nh twice fs bs))) in
+  Inv H inflate w' /\ (forall k c, stored inflate w k = Some c -> stored inflate w' k = Some c).
+Proof. intros w l bs nh twice fs m HI Hp Ho. destruct (import_crash_safe H inflate H_inj w l bs nh twice fs m HI Hp Ho) as (A & B & _). split; assumption. Qed.
 End C05.
 Print Assumptions C05_monitor_sound.
 Print Assumptions C05_add_loose_every_crash_point.
@@ -102,3 +108,4 @@ Print Assumptions C05_repack_every_crash_point.
 Print Assumptions C05_add_to_pack_every_crash_point.
 Print Assumptions C05_new_handle_never_wrong_bytes.
 Print Assumptions C05_any_spill.
+Print Assumptions C05_import_every_crash_point.
